@@ -74,14 +74,17 @@ m = {
  "hooks": {
   "guard": "verif",
   "enable": "go build -tags \"badger verif\" (the harness module /verif/harness replaces github.com/janelia-flyem/dvid => /repo)",
-  "baseline_off_cmd": "cd /repo && %s go test -vet=off -count=1 -timeout 25m ./..." % GOENV,
+  "baseline_off_cmd": "cd /repo && %s go test -json -vet=off -count=1 -timeout 25m ./...  # no hooks exist, so the guard is always off; /verif/baseline_off.sh runs the same suite and compares it with BASELINE.json" % GOENV,
   "source_commits": [],
   "add_only": True,
  },
- "engines": [],
+ "engines": [
+  {"name": "dvidw", "path": "/verif/harness/wcmd/dvidw", "serves_properties": ["C01","C02","C03","C04","C05","C06","C07","C08","C11","C12","C13","C14","C16","C17","C18","C19","C20"], "kind_free_text": "the real DVID server in-process behind wrapping storage engines (write log, crash and delay injection), driven over JSON lines; rebuilt from /repo by every check run"},
+  {"name": "probes", "path": "/verif/harness/wcmd", "serves_properties": ["C06","C09","C10","C15","C18"], "kind_free_text": "package-level probe programs linking /repo packages with naive reference implementations; run in plain, race (checkptr) and asan builds"}
+ ],
  "checks": [],
  "not_applicable": [],
- "notes": "All checks are runtime monitors over executions of the real code (see DESIGN.md).",
+ "notes": "All checks are runtime monitors over executions of the real code (see DESIGN.md section 0 for what was built). /repo carries no instrumentation hooks; it carries one minimal 'fix:' commit per repaired genuine defect (DESIGN.md section 6.1); unrepaired genuine defects are in known_findings.jsonl.",
 }
 for pid in ALL:
     if pid in CHECKS:
